@@ -22,14 +22,15 @@ type Sub struct {
 
 // Program is what one run executes.
 type Program struct {
-	Workers   int              `json:"workers"`
-	InCh      int              `json:"inch"`
-	Producers map[string][]Sub `json:"producers"`
-	Api       []string         `json:"api"`                   // API callers: reset | resetall | token | tokenreset | event
-	Shutdown  bool             `json:"shutdown"`              // a Shutdown goroutine exists
-	Cycles    int              `json:"cycles"`                // number of Serve/Shutdown cycles (>=1)
-	SdDelayUs int              `json:"sd_delay_us,omitempty"` // free-running runs: when the scheduled Shutdown is called (0: within 400us)
-	Overtake  bool             `json:"overtake,omitempty"`    // restart as soon as Shutdown has returned, without waiting for the previous Serve call to return
+	Workers       int              `json:"workers"`
+	InCh          int              `json:"inch"`
+	Producers     map[string][]Sub `json:"producers"`
+	Api           []string         `json:"api"`                      // API callers: reset | resetall | token | tokenreset | event
+	Shutdown      bool             `json:"shutdown"`                 // a Shutdown goroutine exists
+	Cycles        int              `json:"cycles"`                   // number of Serve/Shutdown cycles (>=1)
+	SdDelayUs     int              `json:"sd_delay_us,omitempty"`    // free-running runs: when the scheduled Shutdown is called (0: within 400us)
+	FailSubCycles []int            `json:"failsub_cycles,omitempty"` // serve cycles (0-based) whose connection refuses every subscription
+	Overtake      bool             `json:"overtake,omitempty"`       // restart as soon as Shutdown has returned, without waiting for the previous Serve call to return
 }
 
 // Violation found by a monitor.
@@ -292,6 +293,11 @@ func (sc *Scenario) api(kind string) {
 // harness gate when gates are active.
 func (sc *Scenario) Start(cycle int) {
 	sc.conn = rconn.New(nil)
+	for _, fc := range sc.prog.FailSubCycles {
+		if fc == cycle {
+			sc.conn.FailSub = func(string) error { return fmt.Errorf("subscription refused") }
+		}
+	}
 	sc.serveDone = make(chan error, 1)
 	conn := sc.conn
 	done := sc.serveDone
